@@ -703,7 +703,9 @@ class SoftwareSwitchBase (object):
       # Do we disable send-to-controller when performing this?
       # (Currently, there's the possibility that a table miss from this
       # will result in a send-to-controller which may send back to table...)
-      self._process_in_table(packet, in_port)
+      # Send a copy through the table: later actions of this list modify
+      # the packet object in place, and the table may buffer what it's given.
+      self._process_in_table(ethernet(raw=packet.pack()), in_port)
     else:
       self.log.warn("Unsupported virtual output port: %d", out_port)
 
